@@ -78,6 +78,11 @@ INT_COEFS = st.sampled_from([-4, -3, -2, -1, 1, 2, 3, 4])
 SMALL_INT_COEFS = st.sampled_from([-2, -1, 1, 2])
 DYADIC_COEFS = st.builds(lambda k: k / 8, st.integers(-64, 64).filter(lambda k: k != 0))
 MIXED_COEFS = st.one_of(INT_COEFS, INT_COEFS, DYADIC_COEFS)
+# whole-model magnitude classes: the usual integer / dyadic coefficients times 2^-40 or 2^40.  Scaling by a power of
+# two keeps all arithmetic exact; anything in the library that compares a coefficient with an absolute threshold
+# ("treat |v| < 1e-9 as zero", "values above 1e9 are penalties") shows only here.
+TINY_COEFS = st.one_of(INT_COEFS, DYADIC_COEFS).map(lambda c: c * 2.0 ** -40)
+HUGE_COEFS = st.one_of(INT_COEFS, DYADIC_COEFS).map(lambda c: c * 2.0 ** 40)
 FLOAT_COEFS = st.floats(min_value=-10, max_value=10, allow_nan=False, allow_infinity=False).filter(
     lambda x: abs(x) > 1e-3)
 
@@ -141,7 +146,9 @@ def wrap_number(v, ctype):
         from fractions import Fraction
         return Fraction(v)
     import numpy as np
-    if ctype == "np" and (isinstance(v, int) or float(v).is_integer()) and abs(v) < 2 ** 62:
+    # np.int64 only for small integers: fixed-width integer arithmetic wraps silently on overflow (numpy's semantics,
+    # not the library's), which products of large values would run into
+    if ctype == "np" and (isinstance(v, int) or float(v).is_integer()) and abs(v) <= 64:
         return np.int64(int(v))
     return np.float64(v)
 
